@@ -113,6 +113,10 @@ def int_section(b, tier):
             d = mk([Vld("greater_or_equal", str(l_), l_), Vld("less_or_equal", str(h_), h_)])
             d.default = (str(dv), dv)
             d.derives = list(ARB) + ["Default"]
+        # ... and with a default the validators reject (accepted by the macro; `Default::default()` panics, `arbitrary` must not care)
+        d = mk([Vld("greater_or_equal", "5", 5), Vld("less_or_equal", "9", 9)])
+        d.default = ("0", 0)
+        d.derives = list(ARB) + ["Default"]
         # single-sided bounds at the extremes (wide ranges: C09 only unless the type is small)
         t14 = ("C09", "C14") if bits <= 16 else ("C09",)
         mk([Vld("greater_or_equal", f"{ty}::MIN", lo)], tags=t14)
@@ -292,6 +296,21 @@ def string_custom_sanitizer_section(b, tier):
             d.unspecified = True
 
 
+def invalid_default_section(b, tier):
+    for ty in ("f32", "f64"):
+        d = b.new(inner_float(ty), tags=["C09"])
+        d.vals = [Vld("finite"), float_bound("greater_or_equal", ty, "1.0", None, Fraction(1), d), float_bound("less_or_equal", ty, "2.0", None, Fraction(2), d)]
+        d.default = ("0.0", float_denote(ty, Fraction(0)))
+        d.derives = list(ARB) + ["Default"]
+    for sl in ([], ["trim"]):
+        d = b.new(inner_string(), tags=["C09"])
+        for s_ in sl:
+            d.sans.append(San(s_))
+        d.vals = [Vld("len_char_min", "2", 2), Vld("len_char_max", "5", 5)]
+        d.default = (rust_str(""), "")
+        d.derives = list(ARB) + ["Default"]
+
+
 def string_expr_section(b, tier):
     """length bounds given as expressions (the generator does arithmetic on them: `min + 16` when there is no maximum, `min * size_of::<char>()` ...)"""
     sup = "const A: usize = 32; const B: usize = 31; const N: usize = 3; const M: usize = 9;"
@@ -359,5 +378,6 @@ def build(tier, seed):
     string_section(b, tier)
     string_expr_section(b, tier)
     string_custom_sanitizer_section(b, tier)
+    invalid_default_section(b, tier)
     other_section(b, tier)
     return b.decls
